@@ -1,10 +1,10 @@
 #!/bin/bash
 # tools/runall.sh [tier] [props...] — run the quick (or given) tier of the listed (default: all claimed) checks in sequence; print rc per check
-TIER=${1:-quick}; shift
+TIER=${1:-quick}; shift; cd "$(dirname "$0")/.." || exit 2
 PROPS="$@"
 [ -z "$PROPS" ] && PROPS=$(python3 -c "import json;print(' '.join(c['property_id'] for c in json.load(open('/verif/MANIFEST.json'))['checks']))")
 for p in $PROPS; do
-  s=$(date +%s); out=$(/verif/check $p --tier $TIER 2>&1); rc=$?
+  s=$(date +%s); out=$(./check $p --tier $TIER 2>&1); rc=$?
   echo "$p rc=$rc $(( $(date +%s)-s ))s :: $(echo "$out" | grep -E "^\[$p\] eval" | cut -c1-160)"
   echo "$out" | grep -E "^VIOLATION|^INCONCLUSIVE|^KNOWN" | cut -c1-200 | head -5
 done
